@@ -453,7 +453,10 @@ def perform(x, op, ctx, handles):
             meth = getattr(h, op["method"])
             if op.get("aug"):
                 # the statement `x.f += v` / `x.f *= n` / `x.f |= d`: in-place dunder, then the result is assigned
-                call = lambda: setattr(x, name, meth(*args, **kwargs))
+                def call():
+                    r = meth(*args, **kwargs)
+                    extra["aug_mid"] = reify_state(x)      # the dunder returned; now its result is assigned
+                    setattr(x, name, r)
             else:
                 call = lambda: meth(*args, **kwargs)
         elif k == "nested":
@@ -718,8 +721,20 @@ def run_history(rnd, cast, ctx, tables, nops, mode, ops=None, kwargs=None, safe_
                                        {k for k, v in post_state if canon(dict(pre_state).get(k)) != canon(v)})
                 has = op["op"] in ("set", "call") and cast_has_hook(ctx, cast) and hook_fails(x) \
                     and changed_names in ([op["name"]], [])
-                h.py_findings.append((idx, finding_key(op, "changed-after-raise", tables, ctag, has),
-                                      "%s raised %s but the instance changed (%s differ)" % (op_src(op), out[1], ",".join(diff))))
+                key = finding_key(op, "changed-after-raise", tables, ctag, has)
+                what = "%s raised %s but the instance changed (%s differ)" % (op_src(op), out[1], ",".join(diff))
+                if extra.get("aug_mid") is not None:
+                    # `x.f += v`: the in-place dunder went through (validated, stored) and the assignment of its result
+                    # -- the value the field itself just stored -- was rejected
+                    reason = nf_reason(fcast, dict(extra["aug_mid"]).get(op["name"]))
+                    if reason != "other":
+                        key = "C03/stored-normal-form-invalid/%s/%s" % (ctag, reason)
+                    else:
+                        key = "C03/%s.%s/aug-assign/stored-value-rejected-on-reassignment" % (op["kind"], op["method"])
+                    what = ("%s: the in-place operator validated and stored %s, then the statement's own assignment of "
+                            "that stored value raised %s: the field rejects what it has just stored" % (
+                                op_src(op), G.py_src(dict(extra["aug_mid"]).get(op["name"], ("none",))), out[1]))
+                h.py_findings.append((idx, key, what))
                 h.cut = True
             if not allowed_exception(op, out, extra):
                 ekey = finding_key(op, "exception-class:" + out[1], tables, ctag)
